@@ -105,7 +105,7 @@ def build(read):
     f = desugar_enumerates(f, "value_to_pairs", 2)
     b.edits.append("D5: value_to_pairs: 2x `for (i, x) in X.iter().enumerate()` -> index loops")
     f = extract.rewrite_regex_once(
-        f, r"props\s*\.iter\(\)\s*\.map\(\|\(key, value\)\| \{\s*\(\s*value::new_str_from_string\(key\.to_string\(\)\),\s*value\.clone\(\),\s*\)\s*\}\)\s*\.collect\(\)",
+        f, r"props\s*\.iter\(\)\s*\.map\(\|\((\w+), (\w+)\)\| \{\s*\(\s*value::new_str_from_string\(\1\.(?:to_string|clone)\(\)\),\s*\2\.clone\(\),\s*\)\s*\}\)\s*\.collect\(\)",
         "object_pairs(props)", "value_to_pairs: object iteration")
     b.edits.append("D5: value_to_pairs: `props.iter().map(|(key, value)| (new_str_from_string(key.to_string()), value.clone())).collect()` -> "
                    "`object_pairs(props)` (assumed std BTreeMap contract: entries in ascending key order, each once)")
